@@ -62,7 +62,7 @@ fn('popularity._Popularity.fit', props='C01 C06 C07 C08 C20',
 
 fn('popularity._Popularity.partial_fit', props='C01 C06 C08 C20',
    params=FIT_PARAMS,
-   requires=['INV', 'slen(decisions) == slen(rewards)', 'slen(self.arms) > 0'],
+   requires=['INV~pop', 'slen(decisions) == slen(rewards)', 'slen(self.arms) > 0'],
    modifies=GMODS + ['self.arm_to_status[*]'],
    ensures=['INV'] + ACC)
 
@@ -83,3 +83,9 @@ arm_change_contracts('_Popularity', ['arm_to_sum', 'arm_to_count', 'arm_to_expec
                      add_inv='INV~pop',
                      # the shares of the other arms are untouched, the new arm's share is 0: still the normalised means
                      add_ens=['[C01,pop.keep] implies(old(%s), %s)' % (POP_SHARE, POP_SHARE)])
+
+# warm start copies the (normalised) share of the warm arm along with its sum and count: the shares no longer sum to
+# one afterwards (C01 does not quantify over warm_start histories; C13's "exact copy" is what is claimed)
+from specs.base_mab import warm_start_contracts
+warm_start_contracts('popularity', '_Popularity', ['arm_to_sum', 'arm_to_count', 'arm_to_expectation'], inv='INV~pop',
+                     copy_qual='greedy._EpsilonGreedy._copy_arms')
